@@ -35,7 +35,7 @@ def replay_cases(ctx, key):
     return out
 
 
-REPLAY_KEYS = {"read": "read_cases", "fc": "fc_cases", "hbq": "hbq_cases", "reg": "reg_cases", "mat": "mat_cases",
+REPLAY_KEYS = {"win": "win_cases", "read": "read_cases", "fc": "fc_cases", "hbq": "hbq_cases", "reg": "reg_cases", "mat": "mat_cases",
                "wd": "wd_cases", "lb": "lb_cases"}
 
 
@@ -465,6 +465,25 @@ def run_hbq(ctx):
         i = mm[0]
         ctx.broken("correspondence", "queue model (hb_step) and hbConn disagree on %d schedule(s)" % len(mm),
                    {"hbq_cases": [js[i]], "observed": res[i]})
+
+
+# ------------------------------------------------------------------ (ii') the window between Read's two selects: a search
+def run_win(ctx):
+    iters = 100000 if ctx.tier == "quick" else 1000000
+    res, out = yield ("go", "win", [{"iters": iters}])
+    if not res:
+        ctx.broken("driver", "Go read-window driver did not produce results: %s" % out[-500:])
+        return
+    r = res[0]
+    ctx.count(("win", iters), nontrivial=r["complete"] > 0, kind="hbq/window-search")
+    ctx.cov["window_search"] = dict(r, iters=iters, note="search for the schedule 'queue found empty, then message+close, then the "
+                                    "blocking select with both cases ready'; not reachable deterministically without a hook inside Read")
+    if r["hits"]:
+        ctx.fail("hbq/closed-before-drain-window", "hbConn.Read reported net.ErrClosed while the last message (delivered with the "
+                 "stream error) was still queued, in %d of %d racing runs" % (r["hits"], iters), {"win_cases": [{"iters": iters}], "observed": r})
+    if r["complete"] < iters * 0.5:
+        ctx.broken("driver", "read-window search: only %d of %d runs delivered both messages in order" % (r["complete"], iters))
+    yield ("coq", [])
 
 
 # ------------------------------------------------------------------ (ii) watchdog, measured
@@ -937,13 +956,13 @@ def run(ctx):
     if "C14" not in ctx.extra_dirs:
         ctx.extra_dirs.append("C14")
     ctx.coq_props(props_files=["C16/Props.v", "C16/Refuted.v"])
-    rc, out = ctx.coq_make(["C16/Examples.vo"])
+    rc, out = ctx.coq_make(["C16/Examples.vo", "C16/Run.vo"])
     if rc != 0:
         ctx.broken("examples", "non-vacuity examples (coq/C16/Examples.v) no longer check: " + out[-500:])
     only = (ctx.replay or {}).get("only")
     if ctx.replay and not only:
         only = [k for k, v in REPLAY_KEYS.items() if replay_cases(ctx, v)] or ["none"]
-    subs = [("read", run_reads), ("fc", run_fc), ("hbq", run_hbq), ("reg", run_reg), ("mat", run_mat), ("wd", run_wd), ("lb", run_lb)]
+    subs = [("read", run_reads), ("fc", run_fc), ("hbq", run_hbq), ("win", run_win), ("reg", run_reg), ("mat", run_mat), ("wd", run_wd), ("lb", run_lb)]
     import time
     ctx.cov["timing_s"] = {}
     t0 = time.time()
@@ -992,7 +1011,7 @@ def run(ctx):
         for n in names:
             offs[n] = len(allterms)
             allterms += want_coq[n]
-        mm = ctx.coq_mismatches("all", HEADER, allterms, "chk", shard=max(60, len(allterms) // 14 + 1), need_vo=["C16/Run.vo"])
+        mm = ctx.coq_mismatches("all", HEADER, allterms, "chk", shard=max(60, len(allterms) // 14 + 1))
         for n in names:
             if mm is None:
                 local = None
